@@ -77,6 +77,7 @@ type verifBounds struct {
 	maxEntries, maxPerms int
 	withNull             bool // JSON null as a field state
 	fullFirst            bool // also give the first entry the states that equal "absent" there
+	plain                bool // every field is absent or given with a non-empty value
 }
 
 // verifBuildFile chooses a file; shapes are enumerated, strings symbolic.
@@ -88,7 +89,7 @@ func verifBuildFile(b verifBounds) *verifFile {
 		if b.withNull {
 			strStates, permStates = 4, 3
 		}
-		if i == 0 && !b.fullFirst {
+		if (i == 0 && !b.fullFirst) || b.plain {
 			// nothing precedes the first entry: "", null and [] all mean "absent" there
 			strStates, permStates, minPerms = 2, 2, 1
 		}
@@ -748,9 +749,16 @@ func verifEndToEndBounds() verifBounds {
 }
 
 // VerifC19EndToEnd: Load then AA against the whole statement evaluated on the file as written.
-func VerifC19EndToEnd() {
+func VerifC19EndToEnd() { verifCheckEndToEnd(verifEndToEndBounds()) }
+
+// VerifC19EndToEnd3 (thorough): the same for files of up to three entries in which every field is
+// absent or given with a non-empty value (the empty values are covered, for three entries, by
+// VerifC19Load composed with VerifC19Decide).
+func VerifC19EndToEnd3() { verifCheckEndToEnd(verifBounds{maxEntries: 3, maxPerms: 2, plain: true}) }
+
+func verifCheckEndToEnd(b verifBounds) {
 	verifPanicsAreViolations()
-	f := verifBuildFile(verifEndToEndBounds())
+	f := verifBuildFile(b)
 	u, pw, perm := verifQuery()
 	c, err := verifLoadFile(f)
 	verifAssert("C19-load-accepts-well-formed-file", err == nil)
